@@ -1,1 +1,461 @@
-fn main() { eprintln!("placeholder"); std::process::exit(2); }
+//! hnswsim: decides C25 (HNSW search returns live, correctly ranked neighbours) by seeded
+//! deterministic simulation of `turdb::hnsw::PersistentHnswIndex` on simdisk against a
+//! brute-force model. See ENGINE_GUIDE.md; CLI in the style of vsim / btsim.
+
+mod case;
+mod engine;
+mod exec;
+mod gen;
+mod guard;
+mod oracle;
+mod shrink;
+
+use engine::Hnswsim;
+use simcore::driver::{self, CheckSpec, Engine};
+use simcore::pool::{self, JobStatus, PoolCfg};
+use simcore::Tier;
+use std::time::Duration;
+
+const PROPERTY: &str = "C25";
+const PROFILE: &str = "hnsw@C25";
+// quick: about a minute of batch time on 16 cores; thorough: about ten minutes
+const QUICK_RUNS: u64 = 6000;
+const THOROUGH_RUNS: u64 = 40000;
+
+fn arg_value(args: &[String], flag: &str) -> Option<String> {
+    args.iter().position(|a| a == flag).and_then(|i| args.get(i + 1).cloned())
+}
+
+fn env_u64(k: &str) -> Option<u64> {
+    std::env::var(k).ok().and_then(|v| v.parse().ok())
+}
+
+fn workers() -> usize {
+    env_u64("VSIM_WORKERS")
+        .map(|v| v as usize)
+        .unwrap_or_else(|| std::thread::available_parallelism().map(|n| n.get()).unwrap_or(8).min(16))
+}
+
+fn full_profile(p: &str) -> String {
+    if p.contains('@') {
+        p.to_string()
+    } else {
+        PROFILE.to_string()
+    }
+}
+
+fn cmd_check(args: &[String]) -> i32 {
+    let id = match args.first() {
+        Some(i) => i.clone(),
+        None => {
+            eprintln!("usage: hnswsim check C25 [--tier quick|thorough] [--seed N] [--runs N]");
+            return 2;
+        }
+    };
+    if id != PROPERTY {
+        eprintln!("unknown property {} (hnswsim serves C25)", id);
+        return 2;
+    }
+    let tier = Tier::parse(&arg_value(args, "--tier").or_else(|| std::env::var("VERIF_TIER").ok()).unwrap_or_else(|| "quick".into()));
+    let seed = arg_value(args, "--seed").and_then(|s| s.parse().ok()).or_else(|| env_u64("VERIF_SEED")).unwrap_or(1);
+    let runs = arg_value(args, "--runs")
+        .and_then(|s| s.parse().ok())
+        .or_else(|| env_u64("VSIM_RUNS"))
+        .unwrap_or(if tier == Tier::Thorough { THOROUGH_RUNS } else { QUICK_RUNS });
+    let spec = CheckSpec {
+        property: PROPERTY.to_string(),
+        profile: PROFILE.to_string(),
+        tier,
+        seed,
+        runs,
+        workers: workers(),
+        run_timeout: Duration::from_secs(if tier == Tier::Thorough { 300 } else { 90 }),
+        batch_budget: Duration::from_secs(if tier == Tier::Thorough { 1500 } else { 150 }),
+        level: "exploration".to_string(),
+        also_owns: vec![],
+        min_budget_runs: if tier == Tier::Thorough { 12000 } else { 4000 },
+        min_budget_wall: Duration::from_secs(if tier == Tier::Thorough { 60 } else { 15 }),
+        max_minimise: if tier == Tier::Thorough { 12 } else { 6 },
+    };
+    driver::run_check(&Hnswsim, &spec)
+}
+
+fn cmd_replay(args: &[String]) -> i32 {
+    let path = match args.first() {
+        Some(p) => std::path::PathBuf::from(p),
+        None => {
+            eprintln!("usage: hnswsim replay <file>");
+            return 2;
+        }
+    };
+    driver::replay(&Hnswsim, &path)
+}
+
+fn print_outcome(st: JobStatus, verbose: bool) {
+    match st {
+        JobStatus::Done(o) => {
+            if verbose {
+                println!("{}", serde_json::to_string_pretty(&o.sample).unwrap_or_default());
+            }
+            println!("counters: {:?}", o.counters);
+            println!("events_hash={:016x} nontrivial={} harness_error={:?}", o.events_hash, o.nontrivial, o.harness_error);
+            for v in &o.violations {
+                println!("VIOL {} :: {}", v.sig_string(), v.detail);
+            }
+        }
+        other => println!("{:?}", other),
+    }
+}
+
+/// `hnswsim run1 <profile> <seed> <run> [tier]` — one seeded run, outcome printed.
+fn cmd_run1(args: &[String]) -> i32 {
+    if args.len() < 3 {
+        eprintln!("usage: hnswsim run1 <profile|C25> <seed> <run> [tier]");
+        return 2;
+    }
+    let profile = full_profile(&args[0]);
+    let seed: u64 = args[1].parse().unwrap_or(1);
+    let run: u64 = args[2].parse().unwrap_or(0);
+    let tier = Tier::parse(args.get(3).map(|s| s.as_str()).unwrap_or("quick"));
+    let base = pool::default_scratch_base();
+    let cfg = PoolCfg { workers: 1, timeout: Duration::from_secs(300), scratch: base.join("run1"), deadline: None };
+    let res = pool::run_jobs(&cfg, &[run], |j| Hnswsim.run_seeded(&profile, seed, j, tier));
+    pool::cleanup(&base);
+    for (_, st) in res {
+        print_outcome(st, true);
+    }
+    0
+}
+
+/// `hnswsim gen <profile> <seed> <run> [tier]` — print the explicit case of a seeded run.
+fn cmd_gen(args: &[String]) -> i32 {
+    if args.len() < 3 {
+        eprintln!("usage: hnswsim gen <profile|C25> <seed> <run> [tier]");
+        return 2;
+    }
+    let profile = full_profile(&args[0]);
+    let seed: u64 = args[1].parse().unwrap_or(1);
+    let run: u64 = args[2].parse().unwrap_or(0);
+    let tier = Tier::parse(args.get(3).map(|s| s.as_str()).unwrap_or("quick"));
+    let case = engine::seeded_case(&profile, seed, run, tier);
+    println!("{}", serde_json::to_string(&case).unwrap_or_default());
+    0
+}
+
+/// `hnswsim case <file>` — run a bare case file (the `case` object of a replay file, or a whole
+/// replay file) in a child and print the outcome.
+fn cmd_case(args: &[String]) -> i32 {
+    let path = match args.first() {
+        Some(p) => p.clone(),
+        None => {
+            eprintln!("usage: hnswsim case <file>");
+            return 2;
+        }
+    };
+    let doc: serde_json::Value = match std::fs::read(&path).ok().and_then(|b| serde_json::from_slice(&b).ok()) {
+        Some(d) => d,
+        None => {
+            eprintln!("cannot read {}", path);
+            return 2;
+        }
+    };
+    let case = if doc.get("case").is_some() { doc["case"].clone() } else { doc };
+    let base = pool::default_scratch_base();
+    let cfg = PoolCfg { workers: 1, timeout: Duration::from_secs(300), scratch: base.join("case"), deadline: None };
+    let res = pool::run_jobs(&cfg, &[0], |_| driver::exec_case_inline(&Hnswsim, &case));
+    pool::cleanup(&base);
+    for (_, st) in res {
+        print_outcome(st, true);
+    }
+    0
+}
+
+fn exec_in_child(base: &std::path::Path, case: &serde_json::Value) -> Vec<simcore::Violation> {
+    let cfg = PoolCfg { workers: 1, timeout: Duration::from_secs(120), scratch: base.join("min"), deadline: None };
+    let res = pool::run_jobs(&cfg, &[0], |_| driver::exec_case_inline(&Hnswsim, case));
+    match res.into_iter().next() {
+        Some((_, JobStatus::Done(o))) => o.violations,
+        Some((_, JobStatus::Crashed { status, stderr_tail })) => {
+            let mut sig = std::collections::BTreeMap::new();
+            sig.insert("status".to_string(), status.clone());
+            if let Some(s) = driver::panic_site(&stderr_tail) {
+                sig.insert("site".to_string(), s);
+            }
+            vec![simcore::Violation { property: PROPERTY.into(), verdict: "process-died".into(), sig, detail: format!("child {}; stderr tail: {}", status, stderr_tail), case: case.clone() }]
+        }
+        Some((_, JobStatus::TimedOut { .. })) => {
+            vec![simcore::Violation { property: PROPERTY.into(), verdict: "hang".into(), sig: Default::default(), detail: "watchdog".into(), case: case.clone() }]
+        }
+        None => vec![],
+    }
+}
+
+/// `hnswsim min <profile> <seed> <run> [sig-substring] [tier] [--out dir]` — triage aid: run one
+/// seeded case, pick its first violation whose signature string contains the substring, minimise
+/// it (same greedy loop as the driver, larger budget, each candidate in its own child) and print
+/// the minimal case.
+fn cmd_min(args: &[String]) -> i32 {
+    if args.len() < 3 {
+        eprintln!("usage: hnswsim min <profile|C25> <seed> <run> [sig-substring] [tier] [--out dir] [--name file]");
+        return 2;
+    }
+    let profile = full_profile(&args[0]);
+    let seed: u64 = args[1].parse().unwrap_or(1);
+    let run: u64 = args[2].parse().unwrap_or(0);
+    let want = args.get(3).filter(|s| !s.starts_with("--")).cloned().unwrap_or_default();
+    let tier = Tier::parse(args.get(4).map(|s| s.as_str()).unwrap_or("quick"));
+    let base = pool::default_scratch_base();
+    let case0 = engine::seeded_case(&profile, seed, run, tier);
+    let vs = exec_in_child(&base, &case0);
+    let v = match vs.iter().find(|v| v.sig_string().contains(&want)) {
+        Some(v) => v.clone(),
+        None => {
+            println!("no violation matching {:?}; run has: {:?}", want, vs.iter().map(|v| v.sig_string()).collect::<Vec<_>>());
+            pool::cleanup(&base);
+            return 0;
+        }
+    };
+    let class = v.class();
+    let mut cur = v;
+    let mut execs = 0usize;
+    'outer: loop {
+        for cand in Hnswsim.shrink(&cur.case) {
+            execs += 1;
+            if execs > 20000 {
+                break 'outer;
+            }
+            let vs = exec_in_child(&base, &cand);
+            if let Some(nv) = vs.into_iter().find(|x| x.class() == class && (want.is_empty() || x.sig_string().contains(&want))) {
+                cur = nv;
+                continue 'outer;
+            }
+        }
+        break;
+    }
+    pool::cleanup(&base);
+    if let Some(dir) = arg_value(args, "--out") {
+        let path = driver::write_replay(std::path::Path::new(&dir), "hnswsim", &cur);
+        let path = match arg_value(args, "--name") {
+            Some(n) => {
+                let np = std::path::Path::new(&dir).join(n);
+                let _ = std::fs::rename(&path, &np);
+                np
+            }
+            None => path,
+        };
+        println!("replay file: {}", path.display());
+    }
+    println!("minimised after {} executions", execs);
+    println!("sig: {}", cur.sig_string());
+    println!("detail: {}", cur.detail);
+    println!("case: {}", serde_json::to_string(&cur.case).unwrap_or_default());
+    0
+}
+
+fn batch(profile: &str, n: u64, seed: u64, tier: Tier, label: &str) -> (Vec<(u64, JobStatus)>, f64) {
+    let base = pool::default_scratch_base();
+    let cfg = PoolCfg { workers: workers(), timeout: Duration::from_secs(120), scratch: base.join(label), deadline: None };
+    let jobs: Vec<u64> = (0..n).collect();
+    let t0 = std::time::Instant::now();
+    let res = pool::run_jobs(&cfg, &jobs, |j| Hnswsim.run_seeded(profile, seed, j, tier));
+    pool::cleanup(&base);
+    (res, t0.elapsed().as_secs_f64())
+}
+
+/// `hnswsim kfcheck <findings.json> <profile> <n> [seed] [tier]` — triage aid: which violation
+/// signatures of n seeded runs are NOT matched by the (proposed) known-findings file.
+fn cmd_kfcheck(args: &[String]) -> i32 {
+    if args.len() < 3 {
+        eprintln!("usage: hnswsim kfcheck <findings.json> <profile|C25> <n> [seed] [tier]");
+        return 2;
+    }
+    let known = match simcore::findings::load(std::path::Path::new(&args[0])) {
+        Ok(k) => k,
+        Err(e) => {
+            eprintln!("{}", e);
+            return 2;
+        }
+    };
+    let profile = full_profile(&args[1]);
+    let n: u64 = args[2].parse().unwrap_or(100);
+    let seed: u64 = args.get(3).and_then(|s| s.parse().ok()).unwrap_or(1);
+    let tier = Tier::parse(args.get(4).map(|s| s.as_str()).unwrap_or("quick"));
+    let (res, _) = batch(&profile, n, seed, tier, "kf");
+    let mut hits: std::collections::BTreeMap<String, u64> = Default::default();
+    let mut miss: std::collections::BTreeMap<String, (u64, u64)> = Default::default();
+    let mut sigs: std::collections::BTreeSet<String> = Default::default();
+    let mut other = 0u64;
+    for (j, st) in res {
+        match st {
+            JobStatus::Done(o) => {
+                for v in o.violations.iter().filter(|v| v.property == PROPERTY) {
+                    sigs.insert(v.sig_string());
+                    match simcore::findings::find_match(&known, v) {
+                        Some(f) => *hits.entry(f.id.clone()).or_insert(0) += 1,
+                        None => {
+                            let e = miss.entry(v.sig_string()).or_insert((0, j));
+                            e.0 += 1;
+                        }
+                    }
+                }
+            }
+            st => {
+                other += 1;
+                let e = miss.entry(format!("{:?}", st).chars().take(200).collect()).or_insert((0, j));
+                e.0 += 1;
+            }
+        }
+    }
+    println!("runs: {}, distinct signatures: {}, runs that died or hung: {}", n, sigs.len(), other);
+    println!("matched: {:?}", hits);
+    println!("unmatched signatures: {}", miss.len());
+    for (s, (c, j)) in miss {
+        println!("{:5}x run{} {}", c, j, s);
+    }
+    0
+}
+
+/// `hnswsim selfcheck determinism <profile> <n> [seed]`: every seed twice, at two worker counts and
+/// with differently padded environments.
+fn cmd_selfcheck(args: &[String]) -> i32 {
+    if args.len() < 3 || args[0] != "determinism" {
+        eprintln!("usage: hnswsim selfcheck determinism <profile|C25> <n> [seed]");
+        return 2;
+    }
+    let profile = full_profile(&args[1]);
+    let n: u64 = args[2].parse().unwrap_or(300);
+    let seed: u64 = args.get(3).and_then(|s| s.parse().ok()).unwrap_or(1);
+    let base = pool::default_scratch_base();
+    let jobs: Vec<u64> = (0..n).collect();
+    let mut hashes: Vec<Vec<(u64, String)>> = vec![];
+    let wmax = workers();
+    for (round, w) in [(0, (wmax / 4).max(1)), (1, wmax)] {
+        let cfg = PoolCfg { workers: w, timeout: Duration::from_secs(120), scratch: base.join(format!("det{}", round)), deadline: None };
+        if round == 1 {
+            std::env::set_var("VSIM_PAD", "x".repeat(777));
+        }
+        let res = pool::run_jobs(&cfg, &jobs, |j| Hnswsim.run_seeded(&profile, seed, j, Tier::Quick));
+        hashes.push(
+            res.into_iter()
+                .map(|(j, st)| match st {
+                    JobStatus::Done(o) => {
+                        let sigs: Vec<String> = o.violations.iter().map(|v| format!("{}#{:016x}", v.sig_string(), simcore::rng::fnv1a(v.detail.as_bytes()))).collect();
+                        let cnt = simcore::rng::fnv1a(format!("{:?}", o.counters).as_bytes());
+                        (j, format!("{:016x}/{:016x}/{}v/{:?}/{:?}", o.events_hash, cnt, o.violations.len(), sigs, o.harness_error))
+                    }
+                    other => (j, format!("{:?}", other).chars().take(60).collect()),
+                })
+                .collect(),
+        );
+    }
+    pool::cleanup(&base);
+    let mut bad = 0;
+    for (a, b) in hashes[0].iter().zip(hashes[1].iter()) {
+        if a != b {
+            println!("DIVERGED run {}: {} vs {}", a.0, a.1, b.1);
+            bad += 1;
+        }
+    }
+    println!("determinism: profile {} seed {}: {} seed pairs, {} diverged", profile, seed, n, bad);
+    if bad > 0 {
+        1
+    } else {
+        0
+    }
+}
+
+/// `hnswsim survey <profile> <n> [seed] [tier]`: signature histogram over n seeded runs (triage aid).
+fn cmd_survey(args: &[String]) -> i32 {
+    if args.len() < 2 {
+        eprintln!("usage: hnswsim survey <profile|C25> <n> [seed] [tier] [--by-class]");
+        return 2;
+    }
+    let profile = full_profile(&args[0]);
+    let n: u64 = args[1].parse().unwrap_or(100);
+    let seed: u64 = args.get(2).and_then(|s| s.parse().ok()).unwrap_or(1);
+    let tier = Tier::parse(args.get(3).map(|s| s.as_str()).unwrap_or("quick"));
+    let by_class = args.iter().any(|a| a == "--by-class");
+    let (res, wall) = batch(&profile, n, seed, tier, "survey");
+    let mut hist: std::collections::BTreeMap<String, (u64, u64, String)> = Default::default();
+    let mut counters: std::collections::BTreeMap<String, u64> = Default::default();
+    let mut clean = 0;
+    let mut steps = 0u64;
+    let mut nontrivial = 0u64;
+    for (j, st) in res {
+        match st {
+            JobStatus::Done(o) => {
+                steps += o.counters.get("steps").copied().unwrap_or(0);
+                for (k, v) in &o.counters {
+                    *counters.entry(k.clone()).or_insert(0) += v;
+                }
+                if o.nontrivial {
+                    nontrivial += 1;
+                }
+                if let Some(e) = &o.harness_error {
+                    let e2 = hist.entry(format!("HARNESS {}", e)).or_insert((0, j, String::new()));
+                    e2.0 += 1;
+                }
+                if o.violations.is_empty() {
+                    clean += 1;
+                }
+                let mut seen = std::collections::BTreeSet::new();
+                for v in &o.violations {
+                    let key = if by_class {
+                        let mut k = v.class();
+                        for f in ["why", "call", "err", "ep", "page"] {
+                            if let Some(x) = v.sig.get(f) {
+                                k.push_str(&format!("|{}={}", f, x));
+                            }
+                        }
+                        k
+                    } else {
+                        v.sig_string()
+                    };
+                    if seen.insert(key.clone()) {
+                        let e = hist.entry(key).or_insert((0, j, v.detail.clone()));
+                        e.0 += 1;
+                    }
+                }
+            }
+            other => {
+                let e = hist.entry(format!("{:?}", other).chars().take(300).collect()).or_insert((0, j, String::new()));
+                e.0 += 1;
+            }
+        }
+    }
+    let mut v: Vec<_> = hist.into_iter().collect();
+    v.sort_by_key(|(_, (c, _, _))| std::cmp::Reverse(*c));
+    println!("{} runs, {} clean, {} nontrivial, {} steps, {:.1}s", n, clean, nontrivial, steps, wall);
+    println!("counters: {:?}", counters);
+    for (sig, (c, j, d)) in v {
+        let d: String = d.chars().take(600).collect();
+        println!("{:5}x run{} {}\n        {}", c, j, sig, d.replace('\n', "\n        "));
+    }
+    0
+}
+
+fn main() {
+    let args: Vec<String> = std::env::args().collect();
+    simcore::noaslr::ensure();
+    simdisk::plug_hash_order();
+    let code = match args.get(1).map(|s| s.as_str()) {
+        Some("check") => cmd_check(&args[2..]),
+        Some("replay") => cmd_replay(&args[2..]),
+        Some("run1") => cmd_run1(&args[2..]),
+        Some("gen") => cmd_gen(&args[2..]),
+        Some("case") => cmd_case(&args[2..]),
+        Some("min") => cmd_min(&args[2..]),
+        Some("kfcheck") => cmd_kfcheck(&args[2..]),
+        Some("selfcheck") => cmd_selfcheck(&args[2..]),
+        Some("survey") => cmd_survey(&args[2..]),
+        Some("list") => {
+            println!("{} hnswsim hnsw", PROPERTY);
+            0
+        }
+        _ => {
+            eprintln!("usage: hnswsim check|replay|run1|gen|case|min|kfcheck|selfcheck|survey|list ...");
+            2
+        }
+    };
+    std::process::exit(code);
+}
